@@ -225,6 +225,11 @@ func runC05(c *hx.Ctx) {
 				}
 			}
 			r.Shuffle(len(files), func(i, j int) { files[i], files[j] = files[j], files[i] })
+			// sometimes a name whose prefix up to the first dot is a reserved Windows name
+			if r.Intn(8) == 0 {
+				p := []string{"aux.tar.gz", "pkg/NUL.en.md", "a/com1.v1.d", "con.a.b", "Lpt9.x.y/z.go", "prn.go"}[r.Intn(6)]
+				files = append(files, gen.ZipFileSpec{P: p, Mode: 0o644, Content: []byte("x"), Size: 1})
+			}
 			// sometimes one file cannot be opened or is longer than it declares
 			if len(files) > 0 && r.Intn(4) == 0 {
 				i := r.Intn(len(files))
